@@ -176,6 +176,15 @@ func main() {
 
 	t0 := time.Now()
 	hs := generate(c)
+	if v := os.Getenv("VERIF_C04_ONLY"); v != "" { // debugging aid: one family only
+		var keep []*Hist
+		for _, h := range hs {
+			if h.Fam == v {
+				keep = append(keep, h)
+			}
+		}
+		hs = keep
+	}
 	nw := runtime.NumCPU()
 	if nw > 12 {
 		nw = 12
